@@ -302,6 +302,8 @@ func checkC13(p *Prog, r *Report) {
 	c13Rotation(p, r)
 	c13StaleItem(p, r)
 	c13Headers(p, r, "C13.headers")
+	// the four date formats are encodings of the same dates: sibling agreement of the format arms (shared with C12.R6)
+	c12ForwardArms(p, r, "C13.date-arms")
 }
 
 func short(k string) string { return strings.TrimPrefix(k, "hermes.") }
